@@ -681,6 +681,71 @@ def fieldStep (s : Schema) (c : Cfg) (vars : List (String × Raw)) (defs : List 
   | .error (.panic w) => .error fieldPath ("panic: " ++ w)
   | .error .fuel => .error fieldPath "fuel"
 
+/-! ## argument / input-field directive invocations (`directives.gotpl` `implDirectives`)
+
+The generated code wraps the unmarshal call of an argument or input field that carries a schema directive
+into the directive chain (`directive0` = the unmarshal closure), so the directive runs BEFORE the value is
+unmarshalled, for every key present in the copied map (after default injection) — also for an explicit null —
+and, for arguments, for an absent argument too when `call_argument_directives_with_null` is set. Processing
+stops at the first failing argument / field / item. `dirLog` lists the paths at which a directive is invoked
+(what the universal directive stub logs); it is compared with the implementation, not part of the theorems. -/
+
+/-- run `step` over the items while they succeed; the failing item's own log is included -/
+def logWhileOk {α : Type} (ok : α → Bool) (log : α → List String) : List α → List String
+  | [] => []
+  | a :: r => log a ++ (if ok a then logWhileOk ok log r else [])
+
+def pathKey (p : Path) : String := "/".intercalate p
+
+def dirLog (s : Schema) (c : Cfg) : Nat → Ty → Sh → Raw → Path → List String
+  | 0, _, _, _, _ => []
+  | f + 1, t, sh, v, path =>
+    if v.isNil then [] else
+    match sh with
+    | .ptr inner => dirLog s c f t inner v path
+    | .slice el =>
+      (match t with
+       | .list et _ =>
+         let items := (coerceList v).zipIdx
+         logWhileOk (fun (xi : Raw × Nat) => (unm s c fuelDefault et el xi.1 (path ++ [toString xi.2])).isOk)
+           (fun xi => dirLog s c f et el xi.1 (path ++ [toString xi.2])) items
+       | _ => [])
+    | .struct n | .mapIn n =>
+      (match s.get n, v with
+       | some (.input isMap fields), .obj m =>
+         let asMap := injectDefaults fields m
+         let present := fields.filterMap fun fd => (lookup asMap fd.name).map fun fv => (fd, fv)
+         logWhileOk
+           (fun (p : FieldDef × Raw) =>
+             let fsh := if isMap then shapeRef s c p.1.ty else shapeField s c p.1.ty
+             (unm s c fuelDefault p.1.ty fsh p.2 (path ++ [p.1.name])).isOk)
+           (fun p =>
+             let fsh := if isMap then shapeRef s c p.1.ty else shapeField s c p.1.ty
+             (if p.1.dir then [pathKey (path ++ [p.1.name])] else [])
+               ++ dirLog s c f p.1.ty fsh p.2 (path ++ [p.1.name])) present
+       | _, _ => [])
+    | _ => []
+
+/-- directive invocations while the arguments of one field are built -/
+def fieldDirs (s : Schema) (c : Cfg) (vars : List (String × Raw)) (defs : List ArgDef)
+    (given : List (String × Lit)) (fieldPath : Path) : List String :=
+  match mapE (fun d => match argRaw vars d (lookup given d.name) with
+      | .ok r => .ok (d, r)
+      | .error e => .error e) defs with
+  | .error _ => []       -- arg2map panicked before field_*_args ran
+  | .ok raws =>
+    logWhileOk
+      (fun (dr : ArgDef × Option Raw) =>
+        match dr.2 with
+        | none => true
+        | some r => (unm s c fuelDefault dr.1.ty (shapeRef s c dr.1.ty) r (fieldPath ++ [dr.1.name])).isOk)
+      (fun dr =>
+        match dr.2 with
+        | none => if dr.1.dir && c.argDirNull then [pathKey (fieldPath ++ [dr.1.name])] else []
+        | some r =>
+          (if dr.1.dir then [pathKey (fieldPath ++ [dr.1.name])] else [])
+            ++ dirLog s c fuelDefault dr.1.ty (shapeRef s c dr.1.ty) r (fieldPath ++ [dr.1.name])) raws
+
 /-! ## gqlparser `validator.VariableValues` -/
 
 structure VarDef where
